@@ -67,7 +67,11 @@ type Contract struct {
 	// replay_assume E restricts the models asked for to those the stand-ins fit
 	ReplayFields map[string]string
 	ReplayAssume []*Clause
+	// assumed_ensures E: a postcondition callers rely on that the body is
+	// NOT checked against (reported as an assumption in the evidence)
+	AssumedEnsures []*Clause
 	RecvNonNil bool
+	Reindex    bool
 	NoAutoNonNil bool
 }
 
@@ -99,7 +103,7 @@ func readLines(path string) []string {
 	return strings.Split(string(b), "\n")
 }
 
-var clauseKinds = map[string]bool{"requires": true, "ensures": true, "invariant": true, "panics_when": true, "may_panic_when": true, "modifies": true, "let": true, "fresh": true, "fnfact": true, "replay_assume": true}
+var clauseKinds = map[string]bool{"requires": true, "ensures": true, "invariant": true, "panics_when": true, "may_panic_when": true, "modifies": true, "let": true, "fresh": true, "fnfact": true, "replay_assume": true, "assumed_ensures": true}
 
 // parseContracts reads one file. pkgPath prefixes relative function names.
 func parseContracts(path, pkgPath string, external bool) ([]*Contract, map[string]*Pred, error) {
@@ -190,6 +194,8 @@ func parseContracts(path, pkgPath string, external bool) ([]*Contract, map[strin
 			cur.FnFacts = append(cur.FnFacts, cl)
 		case "replay_assume":
 			cur.ReplayAssume = append(cur.ReplayAssume, cl)
+		case "assumed_ensures":
+			cur.AssumedEnsures = append(cur.AssumedEnsures, cl)
 		case "modifies":
 			cur.Modifies = append(cur.Modifies, cl)
 		case "let":
@@ -327,6 +333,10 @@ func parseContracts(path, pkgPath string, external bool) ([]*Contract, map[strin
 				cur.Pure = true
 			case "inline":
 				cur.Inline = true
+			case "reindex":
+				// quantifiers over x[i] are stated over absolute positions in x's
+				// object while this function is verified (see evalCtx.quant)
+				cur.Reindex = true
 			case "schedpoint":
 				cur.SchedPoint = true
 			case "trusted":
